@@ -274,7 +274,7 @@ def main():
                 ein = d.pool.FindEnumTypeByName(prefix + e.name)
                 ec = getattr(mod, e.name, None)
                 if ec is None:
-                    if kept_only:
+                    if kept_only and not q.get("keep_all"):
                         orc.stats["pruned"] = orc.stats.get("pruned", 0) + 1
                     else:
                         orc.fail("enum-values", prefix + e.name, "no such enum class in the generated module")
@@ -293,7 +293,7 @@ def main():
                 din = d.pool.FindMessageTypeByName(prefix + m.name)
                 cls = getattr(mod, m.name, None)
                 if cls is None:
-                    if kept_only:
+                    if kept_only and not q.get("keep_all"):
                         orc.stats["pruned"] = orc.stats.get("pruned", 0) + 1
                     else:
                         orc.fail("nesting", prefix + m.name, "no such message class in the generated module")
